@@ -1,7 +1,8 @@
 #!/bin/bash
 # run each seeded change against the check of its own property only (fast first answer)
+# usage: tools/seed_targets.sh [tier] [name-glob]
 cd "$(dirname "$0")/.."
-for d in seeded/*/; do
+for d in seeded/${2:-*}/; do
   n=$(basename $d); p=${n%-*}
-  tools/seed.py run $n --props $p --tier "${1:-quick}" 2>&1 | tail -1
+  tools/seed.py run $n --props $p --tier "${1:-quick}" 2>&1 | grep -E "^C[0-9]+-|HARNESS" | cut -c1-300
 done
